@@ -16,7 +16,7 @@ P.trust("scipy KDTree.query(x, k=1, eps, distance_upper_bound): nearest neighbou
 P.trust("numpy linspace / meshgrid / column_stack: the full cartesian product of the three axes, linspace(a, b, n) = a + i (b - a)/(n - 1)")
 P.assume("floats as reals; the dtype cast to float32 of rectangular_grid is not modelled")
 P.not_decided += ["molli_xt distance kernels (C++ templates behind pybind11): no deductive verifier for C++ here and no Python AST -- bounded differential stand-in only",
-                  "aso / aeif / atomic_indicator_field array algebra: covered only by the bounded numeric stand-in"]
+                  "aso / aeif on shapes other than 2 conformers x 2 atoms x 2 grid points: bounded numeric stand-in only"]
 P.bounded_in_quick = True
 GB = "molli.descriptor.gridbased"
 
@@ -151,6 +151,106 @@ def _nearest(V):
             V.ensure("post/returns-that-selection", z3.BoolVal(isinstance(out.value, Opaque) and out.value.head == "obj:where1"))
         else:
             V.ensure("post/returns-that-selection", z3.BoolVal([getattr(r_[1], "head", None) for r_ in res_rows] == ["obj:where1", "obj:where2"]))
+
+
+# ------------------------------------------------------------------------------------------------------- aso / aeif
+def kernel_models(I):
+    """the compiled kernels by their mathematical definition (the kernels themselves: bounded stand-in only)"""
+    import ast as _ast
+
+    def d2(p, q):
+        t = 0
+        for x, y in zip(p, q):
+            d = I.binop(_ast.Sub(), x, y)
+            t = I.binop(_ast.Add(), t, I.binop(_ast.Mult(), d, d))
+        return t
+
+    def cdist32(i, a, k):
+        A, B = NP.asarray(i, a[0]), NP.asarray(i, a[1])
+        return NP.mk([[[d2(p, q) for q in B.data] for p in conf] for conf in A.data], "float")
+    for nm in ("cdist32_eu2", "cdist32f_eu2", "cdist32d_eu2"):
+        I.ext_models[f"molli_xt.{nm}"] = Builtin(nm, cdist32, "molli_xt kernels return the squared Euclidean distances (assumed; bounded stand-in only)")
+
+
+def field_setup(V, nc=2, na=2, ng=2):
+    I, st = V.I, V.st
+    from contracts import mol as M
+    kernel_models(I)
+    ens = M.mk_ens(V, nc, na, bonds=())
+    radii = [V.sym(f"r{a}", "real") for a in range(na)]
+    V.assume(z3.And(*[r.z > 0 for r in radii]))
+    atoms = ens.fields["_atoms"].items
+    I.stubs["molli.chem.atom:Atom.vdw_radius"] = lambda I_, f, args, kw: radii[[id(x) for x in atoms].index(id(args[0]))]
+    grid = NP.mk([[V.sym(f"g{g}{c}", "real") for c in range(3)] for g in range(ng)], "float")
+    w = ens.fields["_weights"]
+    V.assume(z3.And(*[to_z3(x, "real") > 0 for x in w.data]))
+    co = ens.fields["_coords"].data
+    inside = [[z3.Or(*[sum((R(co[c][a][k]) - R(grid.data[g][k])) * (R(co[c][a][k]) - R(grid.data[g][k])) for k in range(3)) <= radii[a].z * radii[a].z
+                       for a in range(na)]) for g in range(ng)] for c in range(nc)]
+    return ens, grid, radii, inside
+
+
+def averaged(vals, weights, weighted):
+    """the (weighted) conformer average of per-conformer values"""
+    if weighted:
+        return sum(R(w_) * v for w_, v in zip(weights, vals)) / sum(R(w_) for w_ in weights)
+    return sum(vals) / len(vals)
+
+
+@P.unit(f"{GB}:aso", name="aso = (weighted) conformer average of the van der Waals occupancy")
+def _aso(V):
+    I, st = V.I, V.st
+    weighted = V.choose([False, True], "weighted")
+    ens, grid, radii, inside = field_setup(V)
+    V.witness(lambda ev: {"op": "fields", "signature": "aso"})
+    V.cover()
+    out = V.call(f"{GB}:aso", [ens, grid], {"weighted": weighted})
+    V.ensure("aso/returns-one-value-per-grid-point", z3.BoolVal(out.returned and isinstance(out.value, NdArr) and tuple(out.value.tail) == (2,)))
+    if not (out.returned and isinstance(out.value, NdArr) and tuple(out.value.tail) == (2,)):
+        return
+    ws = ens.fields["_weights"].data
+    for g in range(2):
+        occ = [z3.If(inside[c][g], z3.RealVal(1), z3.RealVal(0)) for c in range(2)]
+        V.ensure(f"aso/point{g}:average-occupancy", R(out.value.data[g]) == averaged(occ, ws, weighted))
+
+
+@P.unit(f"{GB}:aeif", name="aeif = (weighted) conformer average of the nearest-atom charge inside the van der Waals spheres",
+        functions=[f"{GB}:aeif", f"{GB}:atomic_indicator_field"])
+def _aeif(V):
+    I, st = V.I, V.st
+    weighted = V.choose([False, True], "weighted")
+    given = V.choose(["computed", "passed"], "nearest_atom_idx")
+    ens, grid, radii, inside = field_setup(V)
+    near = [[V.sym(f"near{c}{g}", "int") for g in range(2)] for c in range(2)]
+    V.assume(z3.And(*[z3.And(n.z >= -1, n.z < 2) for row in near for n in row]))
+    asked = []
+
+    def nearest_stub(I_, f, args, kw):
+        asked.append((args[0], args[1], kw.get("max_dist", args[2] if len(args) > 2 else None)))
+        return NP.mk([list(r) for r in near], "int")
+    I.stubs[f"{GB}:nearest_atom_index"] = nearest_stub
+    V.witness(lambda ev: {"op": "fields", "signature": "aeif"})
+    V.cover()
+    kw = {"weighted": weighted}
+    if given == "passed":
+        kw["nearest_atom_idx"] = NP.mk([list(r) for r in near], "int")
+    out = V.call(f"{GB}:aeif", [ens, grid], kw)
+    ok = out.returned and isinstance(out.value, NdArr) and tuple(out.value.tail) == (2,)
+    V.ensure("aeif/returns-one-value-per-grid-point", z3.BoolVal(bool(ok)))
+    if not ok:
+        return
+    if given == "computed":
+        rmax = z3.If(radii[0].z > radii[1].z, radii[0].z, radii[1].z)
+        V.ensure("aeif/nearest-atoms-looked-up-within-the-largest-radius", z3.BoolVal(len(asked) == 1 and asked[0][0] is grid and asked[0][1] is ens) if len(asked) != 1
+                 else z3.And(z3.BoolVal(asked[0][0] is grid and asked[0][1] is ens), R(asked[0][2]) == rmax))
+    q = ens.fields["_atomic_charges"].data
+    ws = ens.fields["_weights"].data
+    for g in range(2):
+        ind = []
+        for c in range(2):
+            qn = z3.If(near[c][g].z == 0, R(q[c][0]), R(q[c][1]))
+            ind.append(z3.If(z3.And(inside[c][g], near[c][g].z >= 0), qn, z3.RealVal(0)))
+        V.ensure(f"aeif/point{g}:average-nearest-atom-charge-indicator", R(out.value.data[g]) == averaged(ind, ws, weighted))
 
 
 @P.bounded_standin("compiled kernels and aso/aeif vs float64 numpy (real extension, CPython)", "shapes 0..5 x 0..5 (x 1..3 conformers), float32/float64, contiguous and transposed inputs; random ensembles/grids")
